@@ -114,6 +114,21 @@ class VLoop(asyncio.BaseEventLoop):
         self.steps += n
         return n
 
+    def run_iteration(self) -> int:
+        """Run exactly one loop iteration: the callbacks that are ready right now, not the ones
+        they schedule (asyncio's `_run_once` takes `len(_ready)` up front)."""
+        ready = self._ready
+        n = 0
+        for _ in range(len(ready)):
+            handle = ready.popleft()
+            if handle._cancelled:
+                continue
+            handle._run()
+            handle = None
+            n += 1
+        self.steps += n
+        return n
+
     def live_timers(self) -> list:
         return [h for h in self._scheduled if not h._cancelled]
 
